@@ -74,7 +74,7 @@ def build(desc):
             "p_replace": 0.3,
             "p_update": 0.05,
             "p_force": 0.0 if disciplined else 0.08,
-            "sizes": (0.5, 2.0, 2.37, 5.0, 10.0, 25.5),
+            "sizes": (0.5, 2.0, 2.37, 5.0, 10.0, 25.5, 2.01, 4.35, 8.2, 1.15, 0.29),
             "liabilities": (2.0, 10.0, 30.0),
             "modes": ("cross", "cross", "at", "rest", "join", "far"),
             "p_any_step": 0.0,
